@@ -95,3 +95,8 @@ pub fn replay_prop(prop: &str, doc: &serde_json::Value) -> Result<Option<Found>,
     let out = run_scenario(&scn, None);
     Ok(out.violation.map(|v| found_from(prop, &scn, &v.signature, &v.oracle, &v.detail)))
 }
+
+/// The scenario of run (seed, run) of `prop`, for the driver's attribution probe.
+pub fn scenario_of(prop: &'static str, sem: hist::Sem, seed: u64, run: u64) -> Scenario {
+    hist::plan(seed, prop, run, sem).scenario
+}
